@@ -1652,8 +1652,10 @@ fn endpoint_smoke(seed: u64, unix: bool) -> Outcome {
                     }
                     Ok::<Vec<C>, std::io::Error>(got)
                 };
-                let (a, b) = tokio::join!(client, server);
-                Ok::<Option<(Vec<R>, Vec<C>)>, std::io::Error>(Some((a?, b?)))
+                match tokio::time::timeout(std::time::Duration::from_secs(120), async { tokio::join!(client, server) }).await {
+                    Ok((a, b)) => Ok::<Option<(Vec<R>, Vec<C>)>, std::io::Error>(Some((a?, b?))),
+                    Err(_) => Err(std::io::Error::new(std::io::ErrorKind::TimedOut, "WATCHDOG")),
+                }
             }};
         }
         if unix {
@@ -1681,6 +1683,7 @@ fn endpoint_smoke(seed: u64, unix: bool) -> Outcome {
     });
     match res {
         Ok(None) => out.count("endpoint_smoke_unavailable", 1),
+        Err(e) if e.kind() == std::io::ErrorKind::TimedOut && e.to_string() == "WATCHDOG" => out.inconclusive = Some(format!("{name}: the exchange did not finish within 120 s of real time")),
         Err(e) => out.viol("C15", "read-error", format!("{name}: {e}")),
         Ok(Some((resps, reqs))) => {
             if reqs.len() != c2s.len() || resps.len() != s2c.len() {
